@@ -2,6 +2,7 @@ SPECIFICATION Spec
 CONSTANTS
   Keys = {1}
   NWs = {1}
+  Lrus = {TRUE, FALSE}
   MaxOps = 3
   FreeFail = TRUE
   Gated = FALSE
